@@ -31,6 +31,9 @@ theorem length_eq_of_same_members {l₁ l₂ : List Item} (h₁ : l₁.Nodup) (h
     l₁.length = l₂.length :=
   ((List.perm_ext_iff_of_nodup h₁ h₂).mpr h).length_eq
 
+theorem isEmpty_eq_of_length_eq {l₁ l₂ : List Item} (h : l₁.length = l₂.length) : l₁.isEmpty = l₂.isEmpty := by
+  cases l₁ <;> cases l₂ <;> simp at h ⊢
+
 theorem nodup_filter {l : List Item} (p : Item → Bool) (h : l.Nodup) : (l.filter p).Nodup :=
   List.Nodup.sublist List.filter_sublist h
 
@@ -306,6 +309,33 @@ theorem loadAll_spec {c : Coll} {l : List Item} (h : J c l) :
       injection hn with hn
       rw [← hn, hlen]
 
+/-- the flush: the pending changes reach the database, the logical contents stay, the database then holds exactly them -/
+theorem flushColl_spec (cfg : Cfg) {c : Coll} {l : List Item} (h : J c l)
+    (hs : cfg.m2m = false ∨ cfg.owning = true ∨ cfg.fixFlush = true) :
+    J (flushColl cfg c) l ∧ ((flushColl cfg c).db.length : Int) = l.length := by
+  have hreset : (!cfg.m2m || cfg.owning || cfg.fixFlush) = true := by
+    rcases hs with h1 | h1 | h1 <;> simp [h1]
+  have hmemdb : ∀ y, y ∈ ((c.db.filter fun y => decide (y ∉ c.sd.removed)) ++ c.sd.added) ↔ y ∈ l := by
+    intro y; rw [List.mem_append, h.mem y]; simp [List.mem_filter]
+  have hlen : (((c.db.filter fun y => decide (y ∉ c.sd.removed)) ++ c.sd.added).length : Int) = l.length := by
+    have h1 := length_filter_not_mem h.dbnd h.rnd h.removedIn
+    have h2 := h.card
+    simp only [List.length_append, Int.natCast_add] at *
+    omega
+  simp only [flushColl, hreset, if_true]
+  refine ⟨⟨h.lnd, ?_, h.ind, by simp, by simp, ?_, by simp, by simp, h.itemsSub, by simp, h.full, ?_, h.cnt, ?_⟩, hlen⟩
+  · rw [List.nodup_append]
+    refine ⟨nodup_filter _ h.dbnd, h.and_, ?_⟩
+    intro a ha b hb; rintro rfl
+    exact h.addedFresh a hb (List.mem_filter.mp ha).1
+  · intro y; simp [← hmemdb y]
+  · simp only [List.length_nil]; rw [← hlen]; simp
+  · intro y hy hyl
+    apply h.absentOk y _ hyl
+    simp only at hy; split at hy
+    · simp at hy
+    · exact hy
+
 /-! ### every operation -/
 
 theorem step_spec (cfg : Cfg) {c : Coll} {l : List Item} (h : J c l) (op : Op) (hv : OpValid c l op) (hs : OpSafe cfg op) :
@@ -376,31 +406,83 @@ theorem step_spec (cfg : Cfg) {c : Coll} {l : List Item} (h : J c l) (op : Op) (
           fun n hn => by simp at hn; subst hn; simp [specStep, h.card], h.absentOk⟩
       · intro v hv'; simp at hv'; subst hv'; simp [specStep, specRead, h.card]
   | flush =>
-    have hreset : (!cfg.m2m || cfg.owning || cfg.fixFlush) = true := by
-      rcases hs with h1 | h1 | h1 <;> simp [h1]
-    have hmemdb : ∀ y, y ∈ ((c.db.filter fun y => decide (y ∉ c.sd.removed)) ++ c.sd.added) ↔ y ∈ l := by
-      intro y; rw [List.mem_append, h.mem y]; simp [List.mem_filter]
-    refine ⟨{ sd := { c.sd with added := [], removed := [], absent := if c.sd.dirty then [] else c.sd.absent, dirty := false },
-              db := (c.db.filter fun y => decide (y ∉ c.sd.removed)) ++ c.sd.added },
-      none, by simp [step, hreset], ?_, by simp⟩
-    simp only [specStep]
-    refine ⟨h.lnd, ?_, h.ind, by simp, by simp, ?_, by simp, by simp, h.itemsSub, by simp, h.full, ?_, h.cnt, ?_⟩
-    rotate_right
-    · intro y hy hyl
-      apply h.absentOk y _ hyl
-      simp only at hy; split at hy
-      · simp at hy
-      · exact hy
-    · rw [List.nodup_append]
-      refine ⟨nodup_filter _ h.dbnd, h.and_, ?_⟩
-      intro a ha b hb; rintro rfl
-      exact h.addedFresh a hb (List.mem_filter.mp ha).1
-    · intro y; simp [← hmemdb y]
-    · have h1 := length_filter_not_mem h.dbnd h.rnd h.removedIn
-      have h2 := h.card
-      simp only [List.length_append, Int.natCast_add, List.length_nil] at *
-      omega
-
+    obtain ⟨hj, _⟩ := flushColl_spec cfg h hs
+    exact ⟨flushColl cfg c, none, rfl, hj, by simp⟩
+  | select =>
+    obtain ⟨hj, hlen⟩ := flushColl_spec cfg h hs
+    refine ⟨flushColl cfg c, some (flushColl cfg c).db.length, rfl, hj, ?_⟩
+    intro v hv'; simp only [Option.some.injEq] at hv'; rw [← hv', hlen]; rfl
+  | nonzero =>
+    by_cases he : c.sd.items.isEmpty = true
+    · obtain ⟨hj, hlen, _⟩ := loadAll_spec h
+      refine ⟨{ c with sd := loadAll c }, some (b2i (!(loadAll c).items.isEmpty)), by simp [step, he], hj, ?_⟩
+      intro v hv'; simp only [Option.some.injEq] at hv'; rw [← hv']
+      simp only [specStep, specRead]
+      congr 2
+      exact isEmpty_eq_of_length_eq (by exact_mod_cast hlen)
+    · have hne : c.sd.items ≠ [] := fun hh => he (by simp [hh])
+      obtain ⟨y, hy⟩ := List.exists_mem_of_ne_nil _ hne
+      have hl : l ≠ [] := List.ne_nil_of_mem (h.itemsSub y hy)
+      refine ⟨c, some 1, by simp [step, he], h, ?_⟩
+      intro v hv'; simp only [Option.some.injEq] at hv'; rw [← hv']
+      simp [specStep, specRead, b2i, hl]
+  | isEmpty probe =>
+    simp only [specStep, specRead]
+    by_cases hf : c.sd.fully = true
+    · have hlen : c.sd.items.length = l.length :=
+        length_eq_of_same_members h.ind h.lnd (fun a => ⟨h.itemsSub a, h.full hf a⟩)
+      refine ⟨c, some (b2i c.sd.items.isEmpty), by simp [step, hf], h, ?_⟩
+      intro v hv'; simp only [Option.some.injEq] at hv'; rw [← hv']
+      congr 1
+      exact isEmpty_eq_of_length_eq hlen
+    · have hf' : c.sd.fully = false := by simpa using hf
+      by_cases he : c.sd.items.isEmpty = true
+      · have hnil : c.sd.items = [] := List.isEmpty_iff.mp he
+        cases hc : c.sd.count with
+        | some n =>
+          have hn := h.cnt n hc
+          refine ⟨c, some (b2i (n == 0)), by simp [step, hf', he, hc], h, ?_⟩
+          intro v hv'; simp only [Option.some.injEq] at hv'; rw [← hv']
+          congr 1
+          rw [Bool.eq_iff_iff, List.isEmpty_iff_length_eq_zero]
+          simp only [beq_iff_eq]; omega
+        | none =>
+          have hask : askEmpty c.sd = true := by simp [askEmpty, hf', he, hc]
+          obtain ⟨hrm, hp⟩ := hv hask
+          have hadd : c.sd.added = [] := by
+            apply List.eq_nil_iff_forall_not_mem.mpr
+            intro y hy; have := h.addedItems y hy; simp [hnil] at this
+          have hmem : ∀ y, y ∈ l ↔ y ∈ c.db := by intro y; rw [h.mem y]; simp [hrm, hadd]
+          cases probe with
+          | some x =>
+            have hxl : x ∈ l := (hmem x).mpr hp
+            refine ⟨{ c with sd := { c.sd with items := ins x c.sd.items } }, some 0, by simp [step, hf', he, hc], ?_, ?_⟩
+            · refine ⟨h.lnd, h.dbnd, nodup_ins h.ind, h.and_, h.rnd, h.mem, h.addedFresh, h.removedIn, ?_, ?_, ?_, h.card, h.cnt, ?_⟩
+              · intro y hy; rcases mem_ins.mp hy with hy | rfl
+                · exact h.itemsSub y hy
+                · exact hxl
+              · intro y hy; exact mem_ins.mpr (Or.inl (h.addedItems y hy))
+              · intro hff; simp [hf'] at hff
+              · intro y hy hyl; exact mem_ins.mpr (Or.inl (h.absentOk y hy hyl))
+            · intro v hv'; simp only [Option.some.injEq] at hv'; rw [← hv']
+              have : l ≠ [] := List.ne_nil_of_mem hxl
+              simp [b2i, this]
+          | none =>
+            have hdb : c.db = [] := hp
+            have hl : l = [] := by
+              apply List.eq_nil_iff_forall_not_mem.mpr
+              intro y hy; have := (hmem y).mp hy; simp [hdb] at this
+            refine ⟨{ c with sd := { c.sd with fully := true, absent := [], count := some 0 } }, some 1, by simp [step, hf', he, hc], ?_, ?_⟩
+            · refine ⟨h.lnd, h.dbnd, h.ind, h.and_, h.rnd, h.mem, h.addedFresh, h.removedIn, h.itemsSub, h.addedItems, ?_, h.card, ?_, by simp⟩
+              · intro _ y hy; simp [hl] at hy
+              · intro n hn; simp at hn; subst hn; simp [hl]
+            · intro v hv'; simp only [Option.some.injEq] at hv'; rw [← hv']; simp [b2i, hl]
+      · have hne : c.sd.items ≠ [] := fun hh => he (by simp [hh])
+        obtain ⟨y, hy⟩ := List.exists_mem_of_ne_nil _ hne
+        have hl : l ≠ [] := List.ne_nil_of_mem (h.itemsSub y hy)
+        refine ⟨c, some 0, by simp [step, hf', he], h, ?_⟩
+        intro v hv'; simp only [Option.some.injEq] at hv'; rw [← hv']
+        simp [b2i, hl]
   | containsRev x =>
     refine ⟨c, _, rfl, h, ?_⟩
     intro v hv'; simp only [Option.some.injEq] at hv'; subst hv'
